@@ -21,12 +21,14 @@ os.rmdir(wt)
 run = lambda *a, **k: subprocess.run(*a, **k, stdout=subprocess.PIPE, stderr=subprocess.STDOUT, text=True)
 print(run(["git", "-C", "/repo", "worktree", "add", "-q", wt, "HEAD"]).stdout, end="")
 try:
-    base = run(["/venv/bin/python", os.path.join(d, "demo.py")], cwd=wt)
+    import shutil
+    shutil.copy(os.path.join(d, "demo.py"), os.path.join(wt, "_demo_seeded.py"))
+    base = run(["/venv/bin/python", "_demo_seeded.py"], cwd=wt)
     r = run(["git", "apply", os.path.join(d, "patch.diff")], cwd=wt)
     if r.returncode:
         print("PATCH DOES NOT APPLY:", r.stdout)
         sys.exit(2)
-    mut = run(["/venv/bin/python", os.path.join(d, "demo.py")], cwd=wt)
+    mut = run(["/venv/bin/python", "_demo_seeded.py"], cwd=wt)
     print("demo on clean tree: exit %d ; with change: exit %d" % (base.returncode, mut.returncode))
     env = dict(os.environ, ARMI_REPO=wt)
     for c in checks:
